@@ -35,6 +35,9 @@ def run(ctx):
     from .c01 import r01g
 
     ctx.each(r01g, ctx, repo, T)
+    from .c07 import r07d
+
+    ctx.each(r07d, ctx, repo)  # a ratio output divides only where the denominator is positive
 
 
 def _bound_in(loop):
@@ -199,6 +202,8 @@ REPORTING = [
     ("cascade", "get_cascade_vals"), ("cascade", "get_cascade_data"), ("cascade", "plot_cascade"), ("cascade", "plot_single_cascade"), ("cascade", "plot_multi_cascade"), ("cascade", "cascade_summary"),
     ("cascade", "sanitize_cascade"), ("cascade", "validate_cascade"), ("cascade", "sanitize_pops"),
 ]
+ACCESSOR_NAMES = {"__getitem__", "get_variable", "popsize", "get_included_comps", "outflow", "get_pop", "get_par", "get_comp", "get_charac", "get_links"}
+ACCESSOR_CACHES = {("Parameter", "source_popsize")}  # memoises the last (ti, value) pair on itself; reviewed: the cache is keyed by ti and never read by reports
 RESULT_PARAMS = {"result", "results", "res", "model", "source_data", "data", "framework", "plotdata"}
 
 
@@ -223,6 +228,21 @@ def r20c(ctx, repo, T, E):
             else:
                 ctx.ok("R20c", fi, "`%s` is not mutated along any resolved call path" % p)
     ctx.require(n >= 25, "R20c: fewer (function, input) pairs (%d) than confirmed (25)" % n)
+    # the value accessors every report reads through (properties and lookups of the model objects) leave the object - and the objects it refers to - untouched:
+    # a ratio that is computed on request must not write into the stored series of its denominator
+    na = 0
+    for ci in repo.module("model").classes.values():
+        for name, fi in ci.methods.items():
+            if not (fi.is_property or name in ACCESSOR_NAMES) or (ci.name, name) in ACCESSOR_CACHES:
+                continue
+            na += 1
+            me = fi.params[0]
+            if E.mutates(fi, me):
+                chain = E.explain(fi, me)
+                ctx.fail("R20c", fi, fi.node, "reading `%s.%s` changes stored values: %s: what one plot or export reports depends on which other outputs were looked at before it" % (ci.name, name, "  ->  ".join(chain)[:300]), stmt_text="accessor-mutates:%s" % (chain[-1].split(" ", 1)[-1] if chain else ""))
+            else:
+                ctx.ok("R20c", fi, "accessor %s.%s is read-only" % (ci.name, name))
+    ctx.require(na >= 12, "R20c: fewer value accessors (%d) than confirmed (12)" % na)
     si = repo.func("plotting", "Series.__init__")
     me = K.self_name(si)
     for p in ("tvec", "vals"):
